@@ -101,6 +101,8 @@ func checkC01(c *Ctx, e *Env) {
 	p := m.P
 	debugE1 = os.Getenv("E1DEBUG") != ""
 	noteUndecided(c, m, r, "C01.E1")
+	ruleSupplyCovered(c, m, r, "C01.COVER")
+	ruleArith(c, e, "C01.ARITH", func(ep *EntryPoint) bool { return ep.Kind == "msg" || ep.Kind == "beginblock" })
 	nPaths := 0
 	for _, h := range r.Handlers {
 		if !hasLedgerEffect(h) {
@@ -957,6 +959,7 @@ func checkC02(c *Ctx, e *Env) {
 	m, r := e1Handlers(c, e)
 	p := m.P
 	noteUndecided(c, m, r, "C02.E1")
+	ruleArith(c, e, "C02.ARITH", func(ep *EntryPoint) bool { return ep.Kind == "msg" && ep.Service == "base" })
 	nPaths := 0
 	for _, h := range r.Handlers {
 		if !hasLedgerEffect(h) {
@@ -1273,6 +1276,7 @@ func checkC04(c *Ctx, e *Env) {
 	m, r := e1Handlers(c, e)
 	p := m.P
 	noteUndecided(c, m, r, "C04.E1")
+	ruleArith(c, e, "C04.ARITH", func(ep *EntryPoint) bool { return ep.Kind == "msg" || ep.Kind == "beginblock" })
 	mono := map[string]bool{"BatchBalance.RetiredAmount": true, "BatchSupply.RetiredAmount": true, "BatchSupply.CancelledAmount": true}
 	type agg struct {
 		ev  *Event
@@ -1345,4 +1349,135 @@ func checkC04(c *Ctx, e *Env) {
 	}
 	c.Min("retired/cancelled write sites", 14, nMon)
 	c.ExpectCanary("C04.MON", "C04.DEL")
+}
+
+// ---- COVER: a supply row never stands alone --------------------------------------------------------
+//
+// The registered batch-supply invariant reports "supply is not found" and genesis validation rejects
+// the export when a BatchSupply row exists for a batch that has no BatchBalance row. Balance rows are
+// never deleted (C04), so the condition is established where supply rows are born: every message path
+// that inserts a BatchSupply row also writes a BatchBalance row of the same batch — in a loop over the
+// issuance list each of whose committed iterations writes one, the list being non-empty because the
+// message validator says so (or because the caller built it with at least one element).
+
+var loopBoundFact = regexp.MustCompile(`^\+Lt\(\((\S+)rangeindex \+ 1\), (.+)\)$`)
+
+func ruleSupplyCovered(c *Ctx, m *Model, r *E1, rule string) {
+	p := m.P
+	n := 0
+	objID := regexp.MustCompile(`#\d+`)
+	norm := func(s string) string { return objID.ReplaceAllString(s, "#") }
+	for _, h := range r.Handlers {
+		if h.EP.Kind == "canary" {
+			continue
+		}
+		sites, bad, badPos, good := 0, "", "", ""
+		for _, o := range h.Outs {
+			if o.Kind != exitReturn {
+				continue
+			}
+			st := o.St
+			for i := range st.events {
+				ev := &st.events[i]
+				if ev.Kind != "write" || ev.Table == nil || ev.Table.Name != "BatchSupply" || ev.OpKind != "insert" {
+					continue
+				}
+				sites++
+				bk := ""
+				if v, ok := ev.Row["BatchKey"]; ok {
+					bk = norm(st.canon(v))
+				}
+				// (1) a balance write of that batch on the same straight-line path
+				direct := false
+				for j := range st.events {
+					w := &st.events[j]
+					if w.Kind == "write" && w.Table != nil && w.Table.Name == "BatchBalance" && w.Loop == ev.Loop && w.OpKind != "delete" {
+						if v, ok := w.Row["BatchKey"]; ok && norm(st.canon(v)) == bk {
+							direct = true
+						}
+					}
+				}
+				if direct {
+					good = "the path that inserts the supply row also writes a balance row of the same batch"
+					continue
+				}
+				// (2) loops of this handler: every committed iteration writes a balance row of the batch
+				type loopInfo struct {
+					all, any bool
+					bound    string
+				}
+				loops := map[string]*loopInfo{}
+				for _, lo := range h.Outs {
+					if lo.Kind != exitLoopback || !strings.HasPrefix(lo.Loop, ev.Loop) {
+						continue
+					}
+					li := loops[lo.Loop]
+					if li == nil {
+						li = &loopInfo{all: true}
+						loops[lo.Loop] = li
+					}
+					wrote := false
+					for j := range lo.St.events {
+						w := &lo.St.events[j]
+						if w.Kind == "write" && w.Table != nil && w.Table.Name == "BatchBalance" && inScope(lo, w) && w.OpKind != "delete" {
+							if v, ok := w.Row["BatchKey"]; ok && norm(lo.St.canon(v)) == bk {
+								wrote = true
+							}
+						}
+					}
+					if wrote {
+						li.any = true
+					} else {
+						li.all = false
+					}
+					for _, f := range lo.St.facts {
+						if mm := loopBoundFact.FindStringSubmatch(f); mm != nil && mm[1] == lo.Loop {
+							li.bound = mm[2]
+						}
+					}
+				}
+				ok, why := false, "no loop of this handler writes a BatchBalance row of the new batch in every committed iteration"
+				for tag, li := range loops {
+					if !li.any {
+						continue
+					}
+					if !li.all {
+						why = "an iteration of " + tag + " can complete without writing a BatchBalance row of the new batch (a batch whose every issuance takes that path has a supply row and no balance row)"
+						continue
+					}
+					// the loop runs at least once
+					switch {
+					case regexp.MustCompile(`^[1-9][0-9]*$`).MatchString(li.bound):
+						ok = true
+					case strings.HasPrefix(li.bound, "len(req."):
+						seq := strings.TrimSuffix(strings.TrimPrefix(li.bound, "len("), ")")
+						v := ValidatedFacts(m, r.X, h.EP)
+						if v.OK && (v.Exit["-Eq(0, len("+seq+"))"] || v.Exit["+Lt(0, len("+seq+"))"] || v.Exit["-Lt(len("+seq+"), 1)"] || v.Exit["+Gt(len("+seq+"), 0)"]) {
+							ok = true
+						} else {
+							why = "the loop over " + seq + " writes the balance rows, but the message validator does not guarantee that " + seq + " is non-empty on every accepting path"
+						}
+					default:
+						why = "the trip count of " + tag + " (bound " + li.bound + ") is not known to be at least one"
+					}
+				}
+				if ok {
+					good = "every committed iteration of the issuance loop writes a balance row of the new batch and the loop runs at least once"
+				} else if bad == "" {
+					bad, badPos = why, p.Pos(ev.Pos.Pos())
+				}
+			}
+		}
+		if sites == 0 {
+			continue
+		}
+		n++
+		key := h.Key + "#BatchSupply.Insert"
+		if bad != "" {
+			c.Violate(rule, key, badPos, "a BatchSupply row can be inserted without any BatchBalance row of the batch: "+bad+"; the batch-supply invariant then reports 'supply is not found' and genesis validation rejects the exported state", nil)
+		} else {
+			c.Hold(rule, key, p.Pos(h.Fn.Pos()), fmt.Sprintf("%d committed paths insert a BatchSupply row: %s", sites, good), nil)
+		}
+	}
+	c.Min("BatchSupply insert sites covered", 2, n)
 }
